@@ -39,7 +39,7 @@ pub fn run(a: &Args) {
         let kinds = ["file", "dir", "pipe", "socket", "eventfd"];
         let mut lines: Vec<String> = (0..nfd).map(|_| format!("fd {}", rng.pick(&kinds))).collect();
         // synthetic linker chain: n entries; 0 well-formed, 1 cyclic, 2 r_debug cut by the end of its mapping
-        let chain = if case % 2 == 1 { let kind = (case / 2) % 3; Some((if kind == 0 { rng.below(6) } else { rng.range(1, 5) }, kind)) } else { None };
+        let chain = if case % 2 == 1 { let kind = (case / 2) % 4; /* 3: well-formed, names at the very end of a mapping */ Some((if kind == 0 { rng.below(6) } else { rng.range(1, 5) }, kind)) } else { None };
         if let Some((n, kind)) = chain { lines.push(format!("chain {n} {kind}")); }
         // every permission triple appears in the target's map
         for p in ["rw-", "---", "r-x", "-w-", "--x", "r--", "rwx", "-wx"] { lines.push(format!("anon {} {p} {}", if p == "rw-" { 2 } else { 1 }, (p == "r-x") as u32)); }
